@@ -24,9 +24,9 @@ static void state(World &w, uint32_t s) { if (w.stats) w.stats->states.insert(s)
 static bool all_zero(const uint8_t *p, size_t n) { for (size_t i = 0; i < n; i++) if (p[i]) return false; return true; }
 static std::string u2s(uint64_t v) { return std::to_string((unsigned long long)v); }
 
-struct CallScope { // marks "a library call is on this task's stack"
+struct CallScope { // marks "a library call is on this task's stack"; errno at entry is plan data, never process residue
     TaskState &t;
-    explicit CallScope(TaskState &t_) : t(t_) { t.cur.in_call = true; }
+    explicit CallScope(TaskState &t_) : t(t_) { t.cur.in_call = true; errno = t.cur.entry_errno; }
     ~CallScope() { t.cur.in_call = false; }
 };
 
@@ -226,7 +226,8 @@ extern "C" long sim_os_entropy(void *buf, size_t len, int mode) {
         memcpy(buf, tmp, std::min<size_t>(len, 32));
         memcpy(c.os_last_ok, tmp, 32); c.os_have_ok = true;
         bump(w, CT_F_OS_OK);
-        if (w.plan->os_stale_errno) { errno = EINTR; bump(w, CT_F_OS_STALE_ERRNO); }
+        if (w.plan->os_stale_errno) { errno = (c.op && (c.op->dseed & 8)) ? EAGAIN : EINTR; bump(w, CT_F_OS_STALE_ERRNO); }
+        else errno = c.entry_errno;
         bool first = c.os_terminal < 0;
         if (first) os_terminal(t, 0);
         else if (c.gen && !c.gen->reqs.empty()) memcpy(c.gen->reqs.back().buf, tmp, 32);
@@ -459,7 +460,9 @@ static void do_hmac(World &w, TaskState &t, const Op &op, int index) {
     case M_FINAL: {
         if (o.st != ST_LIVE) { skip(w); return; }
         Buf out(32, (size_t)(op.b & 7)); memset(out.p, 0xEE, 32);
-        const unsigned char *kp = o.key_null ? nullptr : (o.key.empty() ? g_dummy : o.key.data());
+        Buf kcopy(o.key.size(), (size_t)((op.b >> 3) & 7));   // the same key, supplied again from a different address
+        if (!o.key.empty()) memcpy(kcopy.p, o.key.data(), o.key.size());
+        const unsigned char *kp = o.key_null ? nullptr : kcopy.p;
         { CallScope cs(t); tinyjambu_hmac_finalize(st, kp, o.key.size(), out.p); }
         o.st = ST_FINAL;
         if (on) {
@@ -562,7 +565,9 @@ static void do_hkdf(World &w, TaskState &t, const Op &op, int index) {
         size_t len = (size_t)op.a;
         Buf out(len, (size_t)(op.b & 7));
         if (len) fill_bytes(out.p, len, op.dseed, 7);
-        const unsigned char *ip = o.info_null ? nullptr : (o.info.empty() ? g_dummy : o.info.data());
+        Buf icopy(o.info.size(), (size_t)((op.b >> 3) & 7));   // the same info bytes, from a fresh buffer on every call
+        if (!o.info.empty()) memcpy(icopy.p, o.info.data(), o.info.size());
+        const unsigned char *ip = o.info_null ? nullptr : icopy.p;
         int rc;
         { CallScope cs(t); rc = tinyjambu_hkdf_expand(st, ip, o.info.size(), out.p, len); }
         size_t p = o.cursor;
@@ -580,6 +585,7 @@ static void do_hkdf(World &w, TaskState &t, const Op &op, int index) {
             if (p < HKDF_MAX && p + len > HKDF_MAX) bump(w, CT_P_HKDF_CROSS_8160);
             if (p >= HKDF_MAX && len) bump(w, CT_P_HKDF_AFTER_EXHAUST);
             int want = (p + len <= HKDF_MAX) ? 0 : -1;
+            if (len == 0 && p >= HKDF_MAX && rc == -1) want = -1; // nothing requested from an exhausted object: either answer is within the statement
             if (avail && memcmp(out.p, o.stream.data() + p, avail) != 0)
                 report(w, C13, "okm-mismatch", "expand of " + u2s(len) + " bytes at stream offset " + u2s(p) + " differs from RFC 5869");
             else if (!all_zero(out.p + avail, len - avail))
@@ -753,6 +759,7 @@ static void do_prng(World &w, TaskState &t, const Op &op, int index) {
                 if (o.since + 32 * o.feeds_since > o.L && !bad) { bad = true; why = u2s(o.since) + " bytes emitted (+" + u2s(o.feeds_since) + " feeds) since the last entropy request with limit " + u2s(o.L); }
             }
             if (o.since == o.L && size) bump(w, CT_P_PRNG_GEN_TO_EDGE);
+            if (o.since > 1048576 - 64 && size) bump(w, CT_P_PRNG_OVER_1M);
             if (w.armed == C16 || w.armed == PR_NONE) {
                 uint32_t lc = o.L == 32 ? 0 : o.L < 1024 ? 1 : o.L == 1024 ? 2 : o.L < 1048576 ? 3 : 4;
                 uint32_t sc = size == 0 ? 0 : size < 32 ? 1 : size == 32 ? 2 : size <= o.L ? 3 : 4;
@@ -990,6 +997,11 @@ static void do_oneshot(World &w, TaskState &t, const Op &op, int index) {
 // ---------------------------------------------------------------- dispatch
 void exec_op(World &w, TaskState &t, const Op &op, int index) {
     t.cur.op = &op; t.cur.index = index;
+    {   // errno the caller happens to hold when it enters the library: a seeded value, so that code which
+        // (wrongly) looks at errno after a successful call behaves the same in every process
+        static const int E[4] = {0, EINTR, EAGAIN, EIO};
+        t.cur.entry_errno = w.plan->os_stale_errno ? E[(op.dseed >> 4) & 3] : 0;
+    }
     if (g_beacon) { g_beacon->op_kind = op.kind; g_beacon->op_flags = op.flags; }
     if (w.stats) { w.stats->c[CT_OPS]++; if (op.kind > 0 && op.kind < OP_KIND_COUNT) w.stats->opk[op.kind]++; }
     uint64_t heap0 = w.heap_calls;
